@@ -4,23 +4,37 @@ import TracklibVerif.Drv.Util
   split <markers as 0/1 string>   → pieces as lists of observation indices, `;`-separated
                                     (an empty piece is `e`) ; no piece at all → `_`
   marker <mode and|or> <thresholds ratlist> <rows: per observation the tested values, `nan` allowed>
-                                  → marker string -/
+                                  → marker string (`_` for no observation), or `err:index`
+  segsplit <mode> <thresholds> <rows>  → `<marker string> <pieces>` : `segmentation()` then `split()` on its marker -/
 namespace TV.Drv.C11
 open TV.Split TV.Drv
+
+def showPieces (pieces : List (List Nat)) : String :=
+  joinWith ";" (pieces.map (fun p => if p.isEmpty then "e" else ",".intercalate (p.map toString)))
+
+def splitIdx (ms : List Bool) : List (List Nat) := split ((List.range ms.length).zip ms)
+
+def showMarks (bs : List Bool) : String :=
+  if bs.isEmpty then "_" else String.ofList (bs.map (fun b => if b then '1' else '0'))
+
+def rows? (rows : String) : Option (List (List (Option Rat))) :=
+  (splitTok rows ';').mapM (fun r => (splitTok r ',').mapM
+    (fun s => if s == "nan" then some none else (rat? s).map some))
 
 def handle (cmd : String) (args : List String) : String :=
   match cmd, args with
   | "split", [m] =>
-    let ms := if m == "_" then [] else m.toList.map (· == '1')
-    let obs := (List.range ms.length).zip ms
-    let pieces := split obs
-    joinWith ";" (pieces.map (fun p => if p.isEmpty then "e" else ",".intercalate (p.map toString)))
-  | "marker", [mode, ths, rows] =>
-    match ratList? ths, (splitTok rows ';').mapM (fun r => (splitTok r ',').mapM
-        (fun s => if s == "nan" then some none else (rat? s).map some)) with
+    if m == "_" then showPieces (splitIdx [])
+    else if m.toList.all (fun c => c == '0' || c == '1') then showPieces (splitIdx (m.toList.map (· == '1')))
+    else "bad-request"
+  | c, [mode, ths, rows] =>
+    if c != "marker" && c != "segsplit" then "bad-request" else
+    match ratList? ths, rows? rows with
     | some th, some rs =>
       if mode == "and" || mode == "or" then
-        String.ofList ((rs.map (fun r => marker (mode == "and") th r)).map (fun b => if b then '1' else '0'))
+        match markers (mode == "and") th rs with
+        | some bs => if c == "marker" then showMarks bs else s!"{showMarks bs} {showPieces (splitIdx bs)}"
+        | none => "err:index"
       else "bad-request"
     | _, _ => "bad-request"
   | _, _ => "bad-request"
